@@ -3,6 +3,8 @@
    No proofs. *)
 From Coq Require Import List ZArith NArith Bool String Ascii.
 From Verif Require Export model.Checksum model.Throttle model.RoomAuth.
+From Verif Require model.BackendCfg.
+From Verif Require Import model.OutReq.
 Import ListNotations.
 Open Scope Z_scope.
 
@@ -140,12 +142,27 @@ Fixpoint P_first (cfg : config) (i : N) (pre : trace) (tr : trace) : option N :=
 
 (* outgoing direction: "every request the server sends to a backend carries a
    fresh random of at least 32 bytes and the matching checksum under that
-   backend's secret".  mac = HMAC-SHA256 (secret of the backend that received
-   the request, random ++ body), recomputed by the harness. *)
-Record orec := { r_id : N; r_secret : bytes; r_rnd : bytes; r_chk : bytes; r_body : bytes; r_mac : bytes }.
+   backend's secret".  "That backend" is the backend the configuration IN FORCE
+   when the request is sent resolves the request URL to: the configuration changes
+   between requests (Reload, etcd events), and a secret that was changed, or the
+   secret of a backend that was removed or moved to another URL, is not that
+   backend's secret any more.
+     r_cur     secret of the backend that the configuration in force when the fake
+               backend received the request has at the URL of the receiving endpoint,
+               from the GENERATOR's own bookkeeping of what it configured
+               (None: no backend is configured there now: nothing may be sent)
+     r_mac     HMAC-SHA256 (r_cur, random ++ body), recomputed by the harness
+     r_lookup  oracle for the model: the secret of BackendConfiguration.GetBackend(url)
+               of the running server at that moment (the backend table is C13's);
+     r_lmac    HMAC-SHA256 (r_lookup, random ++ body) *)
+Record orec := { r_id : N; r_cur : option bytes; r_lookup : option bytes;
+                 r_rnd : bytes; r_chk : bytes; r_body : bytes; r_mac : bytes; r_lmac : bytes }.
 
 Definition P_out_one (r : orec) : bool :=
-  (spec_min_random <=? String.length (r_rnd r))%nat && String.eqb (r_chk r) (hex (r_mac r)).
+  match r_cur r with
+  | Some _ => (spec_min_random <=? String.length (r_rnd r))%nat && String.eqb (r_chk r) (hex (r_mac r))
+  | None => false
+  end.
 
 (* ====================== running the model on a case ======================== *)
 
@@ -247,16 +264,35 @@ Definition judge_all (cs : list case) : list (N * N * N) := flat_map judge cs.
    5 = the headers differ from what the model of AddBackendChecksum sets (given the
        random bytes the implementation drew), 6 = P_out false, 7 = a random was
        used twice in this run (statistical freshness test) *)
-Definition mkout (id : N) (secret rnd chk body mac : string) : orec :=
-  {| r_id := id; r_secret := unhex secret; r_rnd := unhex rnd; r_chk := unhex chk; r_body := unhex body;
-     r_mac := unhex mac |}.
+Definition opt_unhex (o : option string) : option bytes :=
+  match o with Some h => Some (unhex h) | None => None end.
+Definition mkout (id : N) (cur lookup : option string) (rnd chk body mac lmac : string) : orec :=
+  {| r_id := id; r_cur := opt_unhex cur; r_lookup := opt_unhex lookup; r_rnd := unhex rnd; r_chk := unhex chk;
+     r_body := unhex body; r_mac := unhex mac; r_lmac := unhex lmac |}.
 
+(* the model of PerformJSONRequest (model/OutReq.v) on the answer of the lookup oracle: a URL
+   without backend is not sent to, otherwise the headers of AddBackendChecksum under the
+   secret of the answer.  Every record IS a request that was sent. *)
 Definition out_model_ok (r : orec) : bool :=
   let raw := unhex (r_rnd r) in       (* the bytes crypto/rand delivered, read back from the header *)
   let rand := fun i => nth i (list_ascii_of_string raw) zero in
-  let hm := fun (k m : bytes) => if String.eqb k (r_secret r) && String.eqb m (r_rnd r ++ r_body r) then r_mac r else EmptyString in
-  let '(rnd, chk) := add_backend_checksum hm rand (r_body r) (r_secret r) in
-  String.eqb rnd (r_rnd r) && String.eqb chk (r_chk r).
+  let key := match r_lookup r with Some s => s | None => EmptyString end in
+  let hm := fun (k m : bytes) => if String.eqb k key && String.eqb m (r_rnd r ++ r_body r) then r_lmac r else EmptyString in
+  let a := match r_lookup r with
+           | Some _ => BackendCfg.ASome (1%N, 1%N, 0, 0, 0, false)
+           | None => BackendCfg.ANone
+           end in
+  match OutReq.sign hm (fun _ => key) rand a (r_body r) with
+  | SSent (rnd, chk) => String.eqb rnd (r_rnd r) && String.eqb chk (r_chk r)
+  | _ => false
+  end.
+
+Definition opt_bytes_eqb (a b : option bytes) : bool :=
+  match a, b with
+  | Some x, Some y => String.eqb x y
+  | None, None => true
+  | _, _ => false
+  end.
 
 Fixpoint dup_randoms (seen : list bytes) (l : list orec) : list (N * N * N) :=
   match l with
@@ -265,7 +301,9 @@ Fixpoint dup_randoms (seen : list bytes) (l : list orec) : list (N * N * N) :=
                  ++ dup_randoms (r_rnd r :: seen) rest
   end.
 
+(* 3: the lookup oracle and the generator's bookkeeping disagree about the backend at this URL *)
 Definition judge_out (l : list orec) : list (N * N * N) :=
   flat_map (fun r => (if out_model_ok r then [] else [(r_id r, 5%N, 0%N)]) ++
-                     (if P_out_one r then [] else [(r_id r, 6%N, 0%N)])) l
+                     (if P_out_one r then [] else [(r_id r, 6%N, 0%N)]) ++
+                     (if opt_bytes_eqb (r_cur r) (r_lookup r) then [] else [(r_id r, 3%N, 0%N)])) l
   ++ dup_randoms [] l.
